@@ -241,6 +241,19 @@ async def run_real(hub, case) -> Real:
             elif op == 'check':
                 await asyncio.sleep(1.0 + 2 * case.get('poll', 2) * (mode == 'poll') +
                                     (3.0 + 10 * sim.latency) * (mode == 'push'))
+                # "once the master has processed everything the slave reported": no request in flight, nothing left in
+                # the slave's session queue, the master back in its long-poll (= the delivered batch has been handled,
+                # including value fetches made while handling it), then a few ticks for the one-value-per-tick queue
+                t_end = hub.loop.time() + 30
+                while hub.loop.time() < t_end:
+                    busy = sim.inflight > 0 or bool(push_tasks and not all(t_.done() for t_ in push_tasks))
+                    if mode == 'listen' and sim.reachable and sim.sessions:
+                        busy = busy or any(s_.queue for s_ in sim.sessions.values()) or \
+                            not any(s_.waiter for s_ in sim.sessions.values())
+                    if not busy:
+                        break
+                    await asyncio.sleep(0.05)
+                await asyncio.sleep(0.3)
                 obs = await observe(hub, sim)
                 obs['idx'] = idx
                 r.checks.append(obs)
